@@ -12,6 +12,9 @@ inductive Node
   | merger (m : Merger Node)
   | cw (n : Node)
   | opf (f : OpenFile)
+  | ctr (key : Bytes) (c : CtrIO Node)
+  | twl (key : Bytes) (c : TwlIO Node)
+  | cbc (key : Bytes) (c : CbcIO Node)
 
 instance : Inhabited Node := ⟨.bio ⟨[], 0⟩⟩
 
@@ -32,24 +35,36 @@ partial def nodeOpsU (u : Unit) : FileOps Node where
     | .merger m => ((Merger.ops (nodeOpsU u)).read m k).map fun (b, s) => (b, .merger s)
     | .cw i => ((closeWrapperOps (nodeOpsU u)).read i k).map fun (b, s) => (b, .cw s)
     | .opf f => (OpenFile.ops.read f k).map fun (b, s) => (b, .opf s)
+    | .ctr key c => ((CtrIO.ops (nodeOpsU u) (Prim.aesEnc key)).read c k).map fun (b, s) => (b, .ctr key s)
+    | .twl key c => ((TwlIO.ops (nodeOpsU u) (Prim.aesEnc key)).read c k).map fun (b, s) => (b, .twl key s)
+    | .cbc key c => ((CbcIO.ops (nodeOpsU u) (Prim.aesDec key)).read c k).map fun (b, s) => (b, .cbc key s)
   write n w := match n with
     | .bio f => (PyFile.ops.write f w).map fun (b, s) => (b, .bio s)
     | .sub s => ((Sub.ops (nodeOpsU u)).write s w).map fun (b, s) => (b, .sub s)
     | .merger m => ((Merger.ops (nodeOpsU u)).write m w).map fun (b, s) => (b, .merger s)
     | .cw i => ((closeWrapperOps (nodeOpsU u)).write i w).map fun (b, s) => (b, .cw s)
     | .opf f => (OpenFile.ops.write f w).map fun (b, s) => (b, .opf s)
+    | .ctr key c => ((CtrIO.ops (nodeOpsU u) (Prim.aesEnc key)).write c w).map fun (b, s) => (b, .ctr key s)
+    | .twl key c => ((TwlIO.ops (nodeOpsU u) (Prim.aesEnc key)).write c w).map fun (b, s) => (b, .twl key s)
+    | .cbc key c => ((CbcIO.ops (nodeOpsU u) (Prim.aesDec key)).write c w).map fun (b, s) => (b, .cbc key s)
   seek n o w := match n with
     | .bio f => (PyFile.ops.seek f o w).map fun (b, s) => (b, .bio s)
     | .sub s => ((Sub.ops (nodeOpsU u)).seek s o w).map fun (b, s) => (b, .sub s)
     | .merger m => ((Merger.ops (nodeOpsU u)).seek m o w).map fun (b, s) => (b, .merger s)
     | .cw i => ((closeWrapperOps (nodeOpsU u)).seek i o w).map fun (b, s) => (b, .cw s)
     | .opf f => (OpenFile.ops.seek f o w).map fun (b, s) => (b, .opf s)
+    | .ctr key c => ((CtrIO.ops (nodeOpsU u) (Prim.aesEnc key)).seek c o w).map fun (b, s) => (b, .ctr key s)
+    | .twl key c => ((TwlIO.ops (nodeOpsU u) (Prim.aesEnc key)).seek c o w).map fun (b, s) => (b, .twl key s)
+    | .cbc key c => ((CbcIO.ops (nodeOpsU u) (Prim.aesDec key)).seek c o w).map fun (b, s) => (b, .cbc key s)
   tell n := match n with
     | .bio f => (PyFile.ops.tell f).map fun (b, s) => (b, .bio s)
     | .sub s => ((Sub.ops (nodeOpsU u)).tell s).map fun (b, s) => (b, .sub s)
     | .merger m => ((Merger.ops (nodeOpsU u)).tell m).map fun (b, s) => (b, .merger s)
     | .cw i => ((closeWrapperOps (nodeOpsU u)).tell i).map fun (b, s) => (b, .cw s)
     | .opf f => (OpenFile.ops.tell f).map fun (b, s) => (b, .opf s)
+    | .ctr key c => ((CtrIO.ops (nodeOpsU u) (Prim.aesEnc key)).tell c).map fun (b, s) => (b, .ctr key s)
+    | .twl key c => ((TwlIO.ops (nodeOpsU u) (Prim.aesEnc key)).tell c).map fun (b, s) => (b, .twl key s)
+    | .cbc key c => ((CbcIO.ops (nodeOpsU u) (Prim.aesDec key)).tell c).map fun (b, s) => (b, .cbc key s)
 
 def nodeOps : FileOps Node := nodeOpsU ()
 
@@ -60,6 +75,9 @@ partial def Node.bases : Node → List Bytes
   | .merger m => m.files.flatMap fun sg => sg.fh.bases
   | .cw n => n.bases
   | .opf f => [f.data]
+  | .ctr _ c => c.reader.bases
+  | .twl _ c => c.reader.bases
+  | .cbc _ c => c.reader.bases
 
 /-- `(bio HEX)`, `(sub OFF SIZE node)`, `(merge (node SIZE) …)`, `(cw node)`, `(opf HEX)` -/
 partial def Node.ofSExp : SExp → Option Node
@@ -74,6 +92,15 @@ partial def Node.ofSExp : SExp → Option Node
       pure (.merger (Merger.create files))
   | .list [.atom "cw", n] => do let n ← Node.ofSExp n; pure (.cw n)
   | .list [.atom "opf", b] => do let b ← b.bytes?; pure (.opf ⟨b, 0⟩)
+  | .list [.atom "ctr", k, c, n] => do
+      let k ← k.bytes?; let c ← c.nat?; let n ← Node.ofSExp n
+      pure (.ctr k ⟨n, c, none, false⟩)
+  | .list [.atom "twl", k, c, n] => do
+      let k ← k.bytes?; let c ← c.nat?; let n ← Node.ofSExp n
+      pure (.twl k ⟨n, c⟩)
+  | .list [.atom "cbc", k, iv, n] => do
+      let k ← k.bytes?; let iv ← iv.bytes?; let n ← Node.ofSExp n
+      pure (.cbc k ⟨n, iv⟩)
   | _ => none
 
 def Op.ofSExp : SExp → Option Op
